@@ -26,7 +26,10 @@ use super::traits::InnerReaderTrait;
 ///
 /// According to benchmarking on compression of representative data, 4MB seems
 /// to be a good choice
+#[cfg(not(feature = "mla_verif"))]
 const UNCOMPRESSED_DATA_SIZE: u32 = 4 * 1024 * 1024;
+#[cfg(feature = "mla_verif")]
+const UNCOMPRESSED_DATA_SIZE: u32 = 512;
 
 /// A bigger value means a better compression ratio, but a slower compression
 ///
@@ -822,7 +825,10 @@ impl<'a, R: 'a + Read> LayerFailSafeReader<'a, R> for CompressionLayerFailSafeRe
     }
 }
 
+#[cfg(not(feature = "mla_verif"))]
 const FAIL_SAFE_BUFFER_SIZE: usize = 4096;
+#[cfg(feature = "mla_verif")]
+const FAIL_SAFE_BUFFER_SIZE: usize = 32;
 
 impl<'a, R: 'a + Read> Read for CompressionLayerFailSafeReader<'a, R> {
     /// This `read` is expected to end by failing
@@ -989,6 +995,13 @@ impl<'a, R: 'a + Read> Read for CompressionLayerFailSafeReader<'a, R> {
             .into()),
         }
     }
+}
+
+/// Scaled-down layer constants, exposed for the external verification harness
+#[cfg(feature = "mla_verif")]
+pub mod verif {
+    pub const UNCOMPRESSED_DATA_SIZE: u32 = super::UNCOMPRESSED_DATA_SIZE;
+    pub const FAIL_SAFE_BUFFER_SIZE: usize = super::FAIL_SAFE_BUFFER_SIZE;
 }
 
 #[cfg(test)]
